@@ -448,6 +448,27 @@ impl PostfixOpManager {
     }
 }
 
+#[cfg(expression_engine_verif)]
+impl InfixOpManager {
+    pub fn verif_lock_free(&self) -> bool {
+        self.store.try_lock().is_ok()
+    }
+}
+
+#[cfg(expression_engine_verif)]
+impl PrefixOpManager {
+    pub fn verif_lock_free(&self) -> bool {
+        self.store.try_lock().is_ok()
+    }
+}
+
+#[cfg(expression_engine_verif)]
+impl PostfixOpManager {
+    pub fn verif_lock_free(&self) -> bool {
+        self.store.try_lock().is_ok()
+    }
+}
+
 #[cfg(test)]
 mod tetst {
     use crate::operator::InfixOpManager;
